@@ -793,6 +793,7 @@ class Engine(object):
         self.qp_memo = {}
         self.pm = {}  # per-path scratch memo for the models
         self.model_hints = []
+        self.nl_policy = None
         self.ivl = {}  # var id -> (lo, hi) interval known from the value box (None = unbounded)
 
     # ------------------------------------------------------------------ variables
@@ -1041,11 +1042,11 @@ class Engine(object):
         polynomial, i.e. solve() is assumed to stop only at exact stationarity -- inputs on which the real loop stops
         because the cost moved by less than 1e-4 although positions still changed are then OUTSIDE the claim."""
         if getattr(self, "nl_policy", None) == "stationary":
-            self.deferred.append(cond)
             self.events.append(("nl-assumed", True))
             self.stats.__dict__["assumed_continue"] = self.stats.__dict__.get("assumed_continue", 0) + 1
-            if self.stats.__dict__["assumed_continue"] > 10**6:
-                raise BoundExceeded("cost loop")
+            n = self.pm["cost_passes"] = self.pm.get("cost_passes", 0) + 1
+            if n > 12:
+                raise BoundExceeded("solve() did not reach exact stationarity within 12 passes")
             return True
         if self.idx < len(self.prefix):
             d = self.prefix[self.idx]
